@@ -185,3 +185,9 @@ def _(model, gene, mutations, alleles):
     ensures(forall(lambda a="Tuple[AlleleId, int]", m=Mutation: implies(a in alleles, (m in result[a]) == (
         m in mutations and gene.has_coverage(a[0].major, m.pos) and m not in alleles[a]))), label="addable-iff-copies-and-not-defined")
     modifies(model)
+
+
+# NOT under symbolic contract: the reference-site block (E_<pos>_REF equations and CONE). The code decides between "the
+# candidate keeps its own variant here" and "a variant may be added here" by len(present_muts) == 1 / < 2 on a filtered
+# list; relating such list lengths to the uniqueness precondition needs a counting argument over finite sums that the
+# back ends do not find (tried; undecided after 80 s). Covered by the bounded native contract only.
